@@ -541,9 +541,37 @@ _collection_resolver = AbstractTypeResolver("""),
             ):""", """            if not issubclass(obj_type, tuple(self.cache_blocklist)):""")]),
     dict(id="c19-memo-keyed-by-id", fires={"C19": "C19.b"},
          edits=[("utils.py", "        obj_type = type(obj)\n", "        obj_type = id(obj)\n")]),
+    dict(id="c07-metadata-of-the-link", fires={"C07": "C07.h"},
+         edits=[(BUF + "file_buffered_collection.py", "os.stat(self._filename)", "os.lstat(self._filename)")]),
+    dict(id="c04-context-load-flag-switched", fires={"C04": "C04.d"},
+         edits=[(DT + "synced_collection.py", """        try:
+            self._collection._save()
+        finally:""", """        try:
+            self._collection._save()
+            self._load = True
+        finally:""")]),
+    dict(id="c01-writer-swallows-replace-error", fires={"C01": "C01.f"},
+         edits=[(BK + "collection_json.py", """            os.replace(fn_tmp, self._filename)
+""", """            try:
+                os.replace(fn_tmp, self._filename)
+            except OSError:
+                os.remove(fn_tmp)
+""")]),
 ]
 
 SILENT = [
+    dict(id="s-flush-loop-emptiness-test", props=["C06", "C07", "C13", "C10"],
+         edits=[(BUF + "file_buffered_collection.py", """                try:
+                    (
+                        col_id,
+                        collection,
+                    ) = cls._buffered_collections.popitem()
+                except KeyError:
+                    break
+""", """                if not cls._buffered_collections:
+                    break
+                col_id, collection = cls._buffered_collections.popitem()
+""")]),
     # The next two were firing variants of the first corpus; after the fixes K6 (_save_to_buffer stores the saver's
     # container) and K3 (root clear/reset hold the buffer lock like every other write) they are behaviour preserving.
     dict(id="s-clear-rebinds-then-saves", props=["C05", "C06", "C01", "C16"],
